@@ -31,6 +31,8 @@ CONSTANTS Starts,        \* start instances (one caller process each)
           JunkBudget,    \* garbage / unknown-id datagrams
           CloseConn,     \* FALSE = WithNoConnClose
           HasFallback,   \* WithHandler set
+          IdleCollects,  \* how many Collect calls that find nothing expired are explored (they let the real agent
+                         \* show a deadline that is earlier than the model's)
           RtoChanges,    \* how many times SetRTO may be called (it toggles the client's RTO between 1 and 2)
           DeadlineTicks, \* TRUE: the clock jumps straight past the next agent deadline (deep retransmission chains)
           OneAtATime,    \* TRUE: a Collect / Close that would emit events for several ids at once is not taken
@@ -55,6 +57,7 @@ VARIABLES
   at, aclosed, alock,                \* agent table (id -> deadline), closed flag, mutex held across Close's callbacks
   obj,                               \* obj[o] = [id, attempt, calls, owner, free]
   clock,
+  idleLeft,                          \* remaining fruitless Collect calls
   rto, rtoBudget,                    \* the client's current RTO (SetRTO), remaining SetRTO calls
   pc, loc,                           \* gate each process is parked at; its locals
   inbox,                             \* datagram waiting at conn.Read: None | [kind, id]
@@ -64,11 +67,11 @@ VARIABLES
   hcalls, hlast, ret, fbcalls,       \* per start: handler invocations, last event kind, Start result; fallback calls
   ended                              \* ended[id]: the transaction's handler has run or Close returned (for QuietAfterEnd)
 
-vars == << closed, closeChan, connCloses, ct, at, aclosed, alock, obj, clock, rto, rtoBudget, pc, loc, inbox,
+vars == << closed, closeChan, connCloses, ct, at, aclosed, alock, obj, clock, idleLeft, rto, rtoBudget, pc, loc, inbox,
            fails, resps, junk, wsucc, wlog, hcalls, hlast, ret, fbcalls, ended >>
 
 \* observation-only variables are hidden from the state identity
-View == << closed, closeChan, connCloses, ct, at, aclosed, alock, obj, clock, rto, rtoBudget, pc, loc, inbox,
+View == << closed, closeChan, connCloses, ct, at, aclosed, alock, obj, clock, idleLeft, rto, rtoBudget, pc, loc, inbox,
            fails, resps, junk, wsucc, hcalls, ret, fbcalls, ended >>
 
 NoLoc == [id |-> None, o |-> None, ev |-> None, todo |-> <<>>, rpc |-> None, s |-> None, now |-> 0]
@@ -79,7 +82,7 @@ Init ==
   /\ at = [i \in Ids |-> None] /\ aclosed = FALSE /\ alock = None
   /\ obj = [o \in Objs |-> [id |-> None, attempt |-> 0, calls |-> 0, owner |-> None, free |-> TRUE, reg |-> 0, prev |-> 0, rto |-> 1]]
   /\ clock = 0
-  /\ rto = 1 /\ rtoBudget = RtoChanges
+  /\ rto = 1 /\ rtoBudget = RtoChanges /\ idleLeft = IdleCollects
   /\ pc = [p \in Procs |-> IF p \in Starts THEN "idle" ELSE IF p = RD THEN "RD_read" ELSE IF p = CL THEN "CL_idle"
                            ELSE IF AllowClose THEN "X_begin" ELSE "X_never"]
   /\ loc = [p \in Procs |-> NoLoc]
@@ -117,7 +120,7 @@ StartBegin(s) ==
   /\ IF closed
      THEN /\ Goto(s, "done") /\ ret' = [ret EXCEPT ![s] = "err"] /\ UNCHANGED loc
      ELSE /\ Goto(s, "S_now") /\ SetLoc(s, [NoLoc EXCEPT !.id = IdOf[s], !.s = s]) /\ UNCHANGED ret
-  /\ UNCHANGED << closed, closeChan, connCloses, ct, at, aclosed, alock, obj, clock, rto, rtoBudget, inbox, fails, resps, junk,
+  /\ UNCHANGED << closed, closeChan, connCloses, ct, at, aclosed, alock, obj, clock, idleLeft, rto, rtoBudget, inbox, fails, resps, junk,
                   wsucc, wlog, hcalls, hlast, fbcalls, ended >>
 
 \* S1: clock read, acquire a pooled object (any free one), snapshot, c.start registration -> agent.Start gate
@@ -130,7 +133,7 @@ StartRegister(s) ==
           THEN /\ Goto(s, "done") /\ ret' = [ret EXCEPT ![s] = "err"] /\ UNCHANGED << ct, loc >>
           ELSE /\ ct' = [ct EXCEPT ![id] = o]
                /\ Goto(s, "S_agentStart") /\ SetLoc(s, [loc[s] EXCEPT !.o = o, !.now = clock]) /\ UNCHANGED ret
-  /\ UNCHANGED << closed, closeChan, connCloses, at, aclosed, alock, clock, rto, rtoBudget, inbox, fails, resps, junk,
+  /\ UNCHANGED << closed, closeChan, connCloses, at, aclosed, alock, clock, idleLeft, rto, rtoBudget, inbox, fails, resps, junk,
                   wsucc, wlog, hcalls, hlast, fbcalls, ended >>
 
 \* S2: agent.Start critical section -> conn.Write gate
@@ -141,7 +144,7 @@ StartAgent(s) ==
      THEN /\ Goto(s, "done") /\ ret' = [ret EXCEPT ![s] = "err"] /\ UNCHANGED at
      ELSE /\ at' = [at EXCEPT ![id] = Deadline(loc[s].now, 0, obj[loc[s].o].rto)]
           /\ Goto(s, "S_write") /\ UNCHANGED ret
-  /\ UNCHANGED << closed, closeChan, connCloses, ct, aclosed, alock, obj, clock, rto, rtoBudget, loc, inbox, fails, resps, junk,
+  /\ UNCHANGED << closed, closeChan, connCloses, ct, aclosed, alock, obj, clock, idleLeft, rto, rtoBudget, loc, inbox, fails, resps, junk,
                   wsucc, wlog, hcalls, hlast, fbcalls, ended >>
 
 \* S3: the first transmission; on failure the client-table entry is deleted -> agent.Stop gate
@@ -156,7 +159,7 @@ StartWrite(s) ==
        /\ IF ok
           THEN /\ Goto(s, "done") /\ ret' = [ret EXCEPT ![s] = "nil"] /\ UNCHANGED ct
           ELSE /\ ct' = [ct EXCEPT ![IdOf[s]] = None] /\ Goto(s, "S_agentStop") /\ UNCHANGED ret
-  /\ UNCHANGED << closed, closeChan, connCloses, at, aclosed, alock, obj, clock, rto, rtoBudget, loc, inbox, resps, junk,
+  /\ UNCHANGED << closed, closeChan, connCloses, at, aclosed, alock, obj, clock, idleLeft, rto, rtoBudget, loc, inbox, resps, junk,
                   hcalls, hlast, fbcalls, ended >>
 
 \* S4: agent.Stop critical section; a registered transaction yields a stopped event (nested callback)
@@ -168,13 +171,13 @@ StartStop(s) ==
      ELSE /\ at' = [at EXCEPT ![id] = None]
           /\ Goto(s, "CB_enter") /\ SetLoc(s, [loc[s] EXCEPT !.ev = Ev("stopped", id), !.rpc = "S_stopret"])
           /\ UNCHANGED ret
-  /\ UNCHANGED << closed, closeChan, connCloses, ct, aclosed, alock, obj, clock, rto, rtoBudget, inbox, fails, resps, junk,
+  /\ UNCHANGED << closed, closeChan, connCloses, ct, aclosed, alock, obj, clock, idleLeft, rto, rtoBudget, inbox, fails, resps, junk,
                   wsucc, wlog, hcalls, hlast, fbcalls, ended >>
 
 StartStopRet(s) ==
   /\ pc[s] = "S_stopret"
   /\ Goto(s, "done") /\ ret' = [ret EXCEPT ![s] = "err"]
-  /\ UNCHANGED << closed, closeChan, connCloses, ct, at, aclosed, alock, obj, clock, rto, rtoBudget, loc, inbox, fails, resps, junk,
+  /\ UNCHANGED << closed, closeChan, connCloses, ct, at, aclosed, alock, obj, clock, idleLeft, rto, rtoBudget, loc, inbox, fails, resps, junk,
                   wsucc, wlog, hcalls, hlast, fbcalls, ended >>
 
 ---------------------------------------------------------------------------
@@ -204,7 +207,7 @@ CbLookup(p) ==
                 ELSE \* retransmission: attempt++, copy to scratch -> clock.Now gate
                      /\ obj' = [obj EXCEPT ![o].attempt = @ + 1]
                      /\ Goto(p, "R_now") /\ SetLoc(p, [loc[p] EXCEPT !.o = o, !.id = obj[o].id])
-  /\ UNCHANGED << closed, closeChan, connCloses, at, aclosed, alock, clock, rto, rtoBudget, inbox, fails, resps, junk,
+  /\ UNCHANGED << closed, closeChan, connCloses, at, aclosed, alock, clock, idleLeft, rto, rtoBudget, inbox, fails, resps, junk,
                   wsucc, wlog, hcalls, hlast, ret, fbcalls, ended >>
 
 \* the user handler body (of the start instance that owns the object *now*), then pool put
@@ -217,14 +220,14 @@ UserHandler(p) ==
         /\ ended' = [i \in Ids |-> ended[i] \/ i = IdOf[s]]
         /\ obj' = PutObj(o)
   /\ Goto(p, "CB_exit")
-  /\ UNCHANGED << closed, closeChan, connCloses, ct, at, aclosed, alock, clock, rto, rtoBudget, loc, inbox, fails, resps, junk,
+  /\ UNCHANGED << closed, closeChan, connCloses, ct, at, aclosed, alock, clock, idleLeft, rto, rtoBudget, loc, inbox, fails, resps, junk,
                   wsucc, wlog, ret, fbcalls >>
 
 Fallback(p) ==
   /\ pc[p] = "FB"
   /\ fbcalls' = IF fbcalls < 3 THEN fbcalls + 1 ELSE fbcalls
   /\ Goto(p, "CB_exit")
-  /\ UNCHANGED << closed, closeChan, connCloses, ct, at, aclosed, alock, obj, clock, rto, rtoBudget, loc, inbox, fails, resps, junk,
+  /\ UNCHANGED << closed, closeChan, connCloses, ct, at, aclosed, alock, obj, clock, idleLeft, rto, rtoBudget, loc, inbox, fails, resps, junk,
                   wsucc, wlog, hcalls, hlast, ret, ended >>
 
 \* completion with an error from the retransmission path: once-guard, handler or put
@@ -245,7 +248,7 @@ RetxRegister(p) ==
         ELSE /\ ct' = [ct EXCEPT ![id] = o]
              /\ Goto(p, "R_agentStart") /\ SetLoc(p, [loc[p] EXCEPT !.now = clock])
              /\ obj' = [obj EXCEPT ![o].prev = obj[o].reg, ![o].reg = clock]
-  /\ UNCHANGED << closed, closeChan, connCloses, at, aclosed, alock, clock, rto, rtoBudget, inbox, fails, resps, junk,
+  /\ UNCHANGED << closed, closeChan, connCloses, at, aclosed, alock, clock, idleLeft, rto, rtoBudget, inbox, fails, resps, junk,
                   wsucc, wlog, hcalls, hlast, ret, fbcalls, ended >>
 
 \* R3: agent.Start with the new deadline (or its error path)
@@ -257,7 +260,7 @@ RetxAgent(p) ==
         THEN /\ ct' = [ct EXCEPT ![id] = None] /\ FailWith(p, o, "starterr") /\ UNCHANGED at
         ELSE /\ at' = [at EXCEPT ![id] = Deadline(loc[p].now, obj[o].attempt, obj[o].rto)]
              /\ Goto(p, "R_write") /\ UNCHANGED << ct, obj, loc >>
-  /\ UNCHANGED << closed, closeChan, connCloses, aclosed, alock, clock, rto, rtoBudget, inbox, fails, resps, junk,
+  /\ UNCHANGED << closed, closeChan, connCloses, aclosed, alock, clock, idleLeft, rto, rtoBudget, inbox, fails, resps, junk,
                   wsucc, wlog, hcalls, hlast, ret, fbcalls, ended >>
 
 \* R4: the retransmission itself
@@ -270,7 +273,7 @@ RetxWrite(p) ==
        /\ LogWrite(loc[p].id, obj[loc[p].o].attempt, loc[p].now, obj[loc[p].o].prev, obj[loc[p].o].rto, ok)
        /\ IF ok THEN Goto(p, "CB_exit") /\ UNCHANGED ct
           ELSE ct' = [ct EXCEPT ![loc[p].id] = None] /\ Goto(p, "R_agentStop")
-  /\ UNCHANGED << closed, closeChan, connCloses, at, aclosed, alock, obj, clock, rto, rtoBudget, loc, inbox, resps, junk,
+  /\ UNCHANGED << closed, closeChan, connCloses, at, aclosed, alock, obj, clock, idleLeft, rto, rtoBudget, loc, inbox, resps, junk,
                   hcalls, hlast, ret, fbcalls, ended >>
 
 \* R5: agent.Stop after a failed retransmission (its nested stopped event finds nothing and is ignored),
@@ -279,7 +282,7 @@ RetxStop(p) ==
   /\ pc[p] = "R_agentStop" /\ alock = None
   /\ at' = IF aclosed THEN at ELSE [at EXCEPT ![loc[p].id] = None]
   /\ FailWith(p, loc[p].o, "writeerr")
-  /\ UNCHANGED << closed, closeChan, connCloses, ct, aclosed, alock, clock, rto, rtoBudget, inbox, fails, resps, junk,
+  /\ UNCHANGED << closed, closeChan, connCloses, ct, aclosed, alock, clock, idleLeft, rto, rtoBudget, inbox, fails, resps, junk,
                   wsucc, wlog, hcalls, hlast, ret, fbcalls, ended >>
 
 \* return from the wrapped handler into the agent method that called it
@@ -304,7 +307,7 @@ CbExit(p) ==
                  /\ AfterAgentClose /\ SetLoc(p, NoLoc)
             ELSE Goto(p, "CB_enter") /\ SetLoc(p, [NoLoc EXCEPT !.ev = Ev("closed", Head(loc[p].todo)), !.todo = Tail(loc[p].todo), !.rpc = "X"])
                  /\ UNCHANGED << at, aclosed, alock, closeChan >>
-  /\ UNCHANGED << closed, connCloses, ct, obj, clock, rto, rtoBudget, inbox, fails, resps, junk,
+  /\ UNCHANGED << closed, connCloses, ct, obj, clock, idleLeft, rto, rtoBudget, inbox, fails, resps, junk,
                   wsucc, wlog, hcalls, hlast, ret, fbcalls, ended >>
 
 ---------------------------------------------------------------------------
@@ -317,7 +320,7 @@ ReaderRead ==
         /\ IF inbox.kind = "garbage"
            THEN UNCHANGED << pc, loc >>                    \* undecodable: dropped, next Read
            ELSE Goto(RD, "RD_process") /\ SetLoc(RD, [NoLoc EXCEPT !.id = inbox.id])
-  /\ UNCHANGED << closed, closeChan, connCloses, ct, at, aclosed, alock, obj, clock, rto, rtoBudget, fails, resps, junk,
+  /\ UNCHANGED << closed, closeChan, connCloses, ct, at, aclosed, alock, obj, clock, idleLeft, rto, rtoBudget, fails, resps, junk,
                   wsucc, wlog, hcalls, hlast, ret, fbcalls, ended >>
 
 InRetxWindow(i) == \E p \in Procs : pc[p] \in {"R_now", "R_agentStart"} /\ loc[p].id = i
@@ -329,7 +332,7 @@ ReaderProcess ==
      THEN Goto(RD, "RD_done") /\ UNCHANGED << at, loc >>
      ELSE /\ at' = [i \in Ids |-> IF i = loc[RD].id THEN None ELSE at[i]]
           /\ Goto(RD, "CB_enter") /\ SetLoc(RD, [NoLoc EXCEPT !.ev = Ev("msg", loc[RD].id), !.rpc = "RD"])
-  /\ UNCHANGED << closed, closeChan, connCloses, ct, aclosed, alock, obj, clock, rto, rtoBudget, inbox, fails, resps, junk,
+  /\ UNCHANGED << closed, closeChan, connCloses, ct, aclosed, alock, obj, clock, idleLeft, rto, rtoBudget, inbox, fails, resps, junk,
                   wsucc, wlog, hcalls, hlast, ret, fbcalls, ended >>
 
 (* collector goroutine: one Collect(now) call *)
@@ -345,7 +348,17 @@ CollectorRun ==
           /\ \E q \in Perms(dead) :
                /\ Goto(CL, "CB_enter")
                /\ SetLoc(CL, [NoLoc EXCEPT !.ev = Ev("timeout", q[1]), !.todo = Tail(q), !.rpc = "CL"])
-  /\ UNCHANGED << closed, closeChan, connCloses, ct, aclosed, alock, obj, clock, rto, rtoBudget, inbox, fails, resps, junk,
+  /\ UNCHANGED << closed, closeChan, connCloses, ct, aclosed, alock, obj, clock, idleLeft, rto, rtoBudget, inbox, fails, resps, junk,
+                  wsucc, wlog, hcalls, hlast, ret, fbcalls, ended >>
+
+\* a Collect call that finds nothing expired: no effect in the model; replayed, it gives the real agent the chance
+\* to time a transaction out earlier than the model allows
+CollectorIdleRun ==
+  /\ pc[CL] = "CL_idle" /\ alock = None /\ ~aclosed /\ idleLeft > 0
+  /\ { i \in Ids : at[i] # None /\ at[i] < clock } = {}
+  /\ \E i \in Ids : at[i] # None
+  /\ idleLeft' = idleLeft - 1
+  /\ UNCHANGED << closed, closeChan, connCloses, ct, at, aclosed, alock, obj, clock, rto, rtoBudget, pc, loc, inbox, fails, resps, junk,
                   wsucc, wlog, hcalls, hlast, ret, fbcalls, ended >>
 
 (* Client.Close *)
@@ -353,14 +366,14 @@ CloseBegin ==
   /\ pc[X] = "X_begin"
   /\ IF closed THEN Goto(X, "X_done_err") /\ UNCHANGED closed
      ELSE closed' = TRUE /\ Goto(X, "X_collClose")
-  /\ UNCHANGED << closeChan, connCloses, ct, at, aclosed, alock, obj, clock, rto, rtoBudget, loc, inbox, fails, resps, junk,
+  /\ UNCHANGED << closeChan, connCloses, ct, at, aclosed, alock, obj, clock, idleLeft, rto, rtoBudget, loc, inbox, fails, resps, junk,
                   wsucc, wlog, hcalls, hlast, ret, fbcalls, ended >>
 
 \* collector.Close returns only when the collector goroutine is idle; it then stops for good
 CloseCollector ==
   /\ pc[X] = "X_collClose" /\ pc[CL] = "CL_idle"
   /\ pc' = [pc EXCEPT ![X] = "X_agentClose", ![CL] = "CL_stopped"]
-  /\ UNCHANGED << closed, closeChan, connCloses, ct, at, aclosed, alock, obj, clock, rto, rtoBudget, loc, inbox, fails, resps, junk,
+  /\ UNCHANGED << closed, closeChan, connCloses, ct, at, aclosed, alock, obj, clock, idleLeft, rto, rtoBudget, loc, inbox, fails, resps, junk,
                   wsucc, wlog, hcalls, hlast, ret, fbcalls, ended >>
 
 \* agent.Close: the agent mutex stays held across the closed events of all registered transactions
@@ -375,7 +388,7 @@ CloseAgent ==
                /\ Goto(X, "CB_enter")
                /\ SetLoc(X, [NoLoc EXCEPT !.ev = Ev("closed", q[1]), !.todo = Tail(q), !.rpc = "X"])
           /\ UNCHANGED << aclosed, at, closeChan >>
-  /\ UNCHANGED << closed, connCloses, ct, obj, clock, rto, rtoBudget, inbox, fails, resps, junk,
+  /\ UNCHANGED << closed, connCloses, ct, obj, clock, idleLeft, rto, rtoBudget, inbox, fails, resps, junk,
                   wsucc, wlog, hcalls, hlast, ret, fbcalls, ended >>
 
 \* conn.Close (unless WithNoConnClose), close(c.close); then wg.Wait
@@ -384,14 +397,14 @@ CloseConnAndChan ==
   /\ connCloses' = connCloses + 1
   /\ closeChan' = TRUE
   /\ Goto(X, "X_wait")
-  /\ UNCHANGED << closed, ct, at, aclosed, alock, obj, clock, rto, rtoBudget, loc, inbox, fails, resps, junk,
+  /\ UNCHANGED << closed, ct, at, aclosed, alock, obj, clock, idleLeft, rto, rtoBudget, loc, inbox, fails, resps, junk,
                   wsucc, wlog, hcalls, hlast, ret, fbcalls, ended >>
 
 CloseWait ==
   /\ pc[X] = "X_wait" /\ pc[RD] = "RD_done"
   /\ Goto(X, "X_done")
   /\ ended' = [i \in Ids |-> TRUE]
-  /\ UNCHANGED << closed, closeChan, connCloses, ct, at, aclosed, alock, obj, clock, rto, rtoBudget, loc, inbox, fails, resps, junk,
+  /\ UNCHANGED << closed, closeChan, connCloses, ct, at, aclosed, alock, obj, clock, idleLeft, rto, rtoBudget, loc, inbox, fails, resps, junk,
                   wsucc, wlog, hcalls, hlast, ret, fbcalls >>
 
 ---------------------------------------------------------------------------
@@ -403,14 +416,14 @@ Tick ==
   /\ clock < MaxClock
   /\ DeadlineTicks => (\E j \in Ids : at[j] # None) /\ NextDeadline > clock
   /\ clock' = IF DeadlineTicks /\ NextDeadline > clock /\ NextDeadline <= MaxClock THEN NextDeadline ELSE clock + 1
-  /\ UNCHANGED << closed, closeChan, connCloses, ct, at, aclosed, alock, obj, rto, rtoBudget, pc, loc, inbox, fails, resps, junk,
+  /\ UNCHANGED << closed, closeChan, connCloses, ct, at, aclosed, alock, obj, idleLeft, rto, rtoBudget, pc, loc, inbox, fails, resps, junk,
                   wsucc, wlog, hcalls, hlast, ret, fbcalls, ended >>
 
 \* Client.SetRTO: affects transactions started later only
 SetRTO ==
   /\ rtoBudget > 0
   /\ rto' = 3 - rto /\ rtoBudget' = rtoBudget - 1
-  /\ UNCHANGED << closed, closeChan, connCloses, ct, at, aclosed, alock, obj, clock, pc, loc, inbox, fails, resps, junk,
+  /\ UNCHANGED << closed, closeChan, connCloses, ct, at, aclosed, alock, obj, clock, idleLeft, pc, loc, inbox, fails, resps, junk,
                   wsucc, wlog, hcalls, hlast, ret, fbcalls, ended >>
 
 \* a response can only exist for a request that reached the wire
@@ -418,7 +431,7 @@ Deliver ==
   /\ inbox = None /\ ~closeChan
   /\ \/ /\ resps > 0 /\ \E i \in Ids : wsucc[i] > 0 /\ inbox' = [kind |-> "msg", id |-> i] /\ resps' = resps - 1 /\ UNCHANGED junk
      \/ /\ junk > 0 /\ inbox' \in { [kind |-> "garbage", id |-> Unk], [kind |-> "msg", id |-> Unk] } /\ junk' = junk - 1 /\ UNCHANGED resps
-  /\ UNCHANGED << closed, closeChan, connCloses, ct, at, aclosed, alock, obj, clock, rto, rtoBudget, pc, loc, fails,
+  /\ UNCHANGED << closed, closeChan, connCloses, ct, at, aclosed, alock, obj, clock, idleLeft, rto, rtoBudget, pc, loc, fails,
                   wsucc, wlog, hcalls, hlast, ret, fbcalls, ended >>
 
 CbStep(p) == CbLookup(p) \/ UserHandler(p) \/ Fallback(p) \/ RetxRegister(p) \/ RetxAgent(p) \/ RetxWrite(p)
@@ -427,7 +440,7 @@ CbStep(p) == CbLookup(p) \/ UserHandler(p) \/ Fallback(p) \/ RetxRegister(p) \/ 
 Next ==
   \/ \E s \in Starts : StartBegin(s) \/ StartRegister(s) \/ StartAgent(s) \/ StartWrite(s) \/ StartStop(s) \/ StartStopRet(s)
   \/ \E p \in Procs : CbStep(p)
-  \/ ReaderRead \/ ReaderProcess \/ CollectorRun
+  \/ ReaderRead \/ ReaderProcess \/ CollectorRun \/ CollectorIdleRun
   \/ CloseBegin \/ CloseCollector \/ CloseAgent \/ CloseConnAndChan \/ CloseWait
   \/ Tick \/ Deliver \/ SetRTO
 
